@@ -136,6 +136,7 @@ extern "C" fn at_exit() {
 
 fn init(target: &str) -> State {
     engine::install_panic_hook();
+    std::env::set_var("FQV_IN_FUZZ", "1");
     let all: &[&str] = TARGETS.iter().find(|(t, _)| *t == target).map(|(_, p)| *p).unwrap_or(&[]);
     let props: Vec<String> = match std::env::var("FQV_FUZZ_PROPS") {
         Ok(s) if !s.trim().is_empty() => s.split(',').map(|x| x.trim().to_uppercase()).filter(|x| all.contains(&x.as_str())).collect(),
